@@ -107,10 +107,15 @@ class TriggerHandler:
         # so we allow the settrace to be disabled, so we can at least debug around it
         if self._config.NO_TRACE:
             return
-        self.__old_sys_trace = sys.gettrace()
+        # (after a shutdown from another thread this thread still runs OUR function - nobody else could take it away:
+        # that is our own leftover, not what was there before us; what we remembered then is still what to put back)
+        if sys.gettrace() != self.trace_call:
+            self.__old_sys_trace = sys.gettrace()
         # gettrace was added in 3.10, so use it if we can, else try to get from property
         # noinspection PyUnresolvedReferences,PyProtectedMember
-        self.__old_thread_trace = threading.gettrace() if hasattr(threading, 'gettrace') else threading._trace_hook
+        old_thread_trace = threading.gettrace() if hasattr(threading, 'gettrace') else threading._trace_hook
+        if old_thread_trace != self.trace_call:
+            self.__old_thread_trace = old_thread_trace
         sys.settrace(self.trace_call)
         threading.settrace(self.trace_call)
         self.__trace_installed = True
